@@ -1,4 +1,4 @@
-CONSTANTS MaxPool = 4  MaxOps = 8  MaxNodes = 4  NameIds = {1, 2}  Bug = ""  AllowDetached = FALSE  Emit = FALSE
+CONSTANTS MaxPool = 4  MaxOps = 8  MaxNodes = 3  NameIds = {1, 2}  Bug = ""  AllowDetached = TRUE  Emit = FALSE
 INIT InitFind
 NEXT NextFind
 VIEW ViewFind
